@@ -180,3 +180,59 @@ Qed.
 
 Lemma components_root t : (t = [] \/ t = [47]) -> path_components ([47] ++ t) = [CRootDir].
 Proof. intros [-> | ->]; reflexivity. Qed.
+
+(* ---------- Path::join with a single normal component ---------- *)
+Lemma split_aux_snoc sep f : ~ In sep f -> forall p acc,
+  split_on_aux sep acc (p ++ sep :: f) = split_on_aux sep acc p ++ [f].
+Proof.
+  intros Hf. induction p as [|x p IH]; intros acc.
+  - cbn [app]. rewrite split_aux_sep, split_aux_nil.
+    rewrite <- (app_nil_r f) at 1. rewrite split_aux_nosep by exact Hf.
+    rewrite split_aux_nil, app_nil_r, rev_involutive. reflexivity.
+  - cbn [app split_on_aux]. destruct (x =? sep); [cbn [app]; f_equal; apply IH | apply IH].
+Qed.
+
+Lemma kept_snoc p f : ~ In 47 f -> keep_piece f = true -> kept (p ++ 47 :: f) = kept p ++ [f].
+Proof.
+  intros Hn Hk. unfold kept, split_on. rewrite split_aux_snoc by exact Hn.
+  rewrite filter_app. cbn [filter]. rewrite Hk. reflexivity.
+Qed.
+
+Lemma kept_trailing_slash p : kept (p ++ [47]) = kept p.
+Proof.
+  unfold kept, split_on. rewrite split_aux_snoc by (intros []).
+  rewrite filter_app. cbn [filter keep_piece piece_is_empty negb andb]. apply app_nil_r.
+Qed.
+
+Lemma ends_with_byte_inv b p : ends_with_byte b p = true -> exists p0, p = p0 ++ [b].
+Proof.
+  unfold ends_with_byte. destruct (rev p) as [|x r] eqn:E; [discriminate|]. intros H.
+  exists (rev r). rewrite <- (rev_involutive p), E. cbn [rev]. f_equal. f_equal. lia.
+Qed.
+
+Lemma abs_app p q : path_is_absolute p = true -> path_is_absolute (p ++ q) = true.
+Proof. destruct p as [|x p]; [discriminate|]. intros H. exact H. Qed.
+
+Theorem components_path_join p f : path_is_absolute p = true ->
+  f <> [] -> ~ In 47 f -> keep_piece f = true -> piece_is_dotdot f = false ->
+  path_components (path_join p f) = path_components p ++ [CNormal f].
+Proof.
+  intros Ha Hne Hn Hk Hdd. unfold path_join.
+  assert (Hfa : path_is_absolute f = false).
+  { destruct f as [|x f']; [reflexivity|]. destruct (path_is_absolute (x :: f')) eqn:E; [|reflexivity].
+    exfalso. apply Hn. left.
+    destruct x as [|px]; [discriminate E|]. do 6 (destruct px as [px|px|]; try discriminate E). reflexivity. }
+  rewrite Hfa.
+  assert (Hcop : component_of_piece f = CNormal f) by (unfold component_of_piece; rewrite Hdd; reflexivity).
+  rewrite (components_abs p Ha).
+  destruct (negb (piece_is_empty p) && negb (ends_with_byte 47 p)) eqn:E.
+  - rewrite components_abs by (apply abs_app; exact Ha).
+    cbn [app]. rewrite kept_snoc by assumption. rewrite map_app. cbn [map app]. rewrite Hcop. reflexivity.
+  - assert (He : ends_with_byte 47 p = true).
+    { destruct p as [|x p']; [discriminate Ha|]. cbn [piece_is_empty negb andb] in E.
+      destruct (ends_with_byte 47 (x :: p')); [reflexivity | discriminate E]. }
+    destruct (ends_with_byte_inv 47 p He) as [p0 Hp0]. subst p.
+    rewrite components_abs by (apply abs_app; exact Ha).
+    rewrite <- app_assoc. cbn [app]. rewrite kept_snoc by assumption. rewrite kept_trailing_slash.
+    rewrite map_app. cbn [map app]. rewrite Hcop. reflexivity.
+Qed.
